@@ -26,7 +26,7 @@ tvars == <<vars, tid, l>>
 \* lenient reading (DESIGN.md appendix E): `set @x' on a layer-less target whose body already defines x may
 \* edit that body binding instead of creating a layer
 EffSel(pre, post, o) ==
-    IF o.f = "set" /\ o.sel = 1 /\ pre.layers = <<>> /\ post.layers = <<>> /\ pre.shape = "ok"
+    IF o.f = "set" /\ o.sel = 1 /\ pre.layers = <<>> /\ post.layers = <<>> /\ pre.shape = "ok" /\ post.shape = "ok"
        /\ (Exact(pre.body.items, o.path) # {} \/ Through(pre.body.items, o.path) # {})
     THEN 0 ELSE o.sel
 
@@ -47,7 +47,8 @@ Clauses(pre, e) ==
         pruned == o.sel > 0 /\ Len(post.layers) < Len(pre.layers)
         okShape == post.shape = "ok" /\ (o.sel = 0 \/ pruned \/ o.sel <= Len(post.layers))
         J == IF ~okShape \/ pruned THEN <<>> ELSE ItemsAt(post, o.sel)
-        viaRef == o.f = "set" /\ RefOnPath(I, o.path)      \* C11 decides these
+        viaRef == \/ o.f = "set" /\ RefOnPath(I, o.path)      \* C11 decides these
+                  \/ Inherited(I, o.path) # {}                \* an inherited name is a reference, too
     IN
     IF e.res = "ok" THEN
         (IF ~e.valid THEN {"C05_Valid"} ELSE {}) \cup
@@ -55,7 +56,7 @@ Clauses(pre, e) ==
         (IF ~e.coherent THEN {"C14_TextAgrees"} ELSE {}) \cup
         (IF ref.res # "ok" /\ ref.why # "family" THEN {"C08_Loud:" \o ref.why} ELSE
          IF ~okShape THEN {"C05_Shape"} ELSE
-         IF viaRef THEN {} ELSE
+         IF viaRef THEN (IF NoDuplicate(I) /\ ~NoDuplicate(J) THEN {"C05_NoDuplicate"} ELSE {}) ELSE
            (IF o.f = "set" /\ ~SetEffect(I, J, o.path, o.v) THEN {"C05_Effect"} ELSE {}) \cup
            (IF o.f = "rm" /\ ~RmEffect(I, J, o.path) THEN {"C05_Effect"} ELSE {}) \cup
            (IF o.f = "set" /\ ~SetFrame(I, J, o.path) THEN {"C04_Frame"} ELSE {}) \cup
